@@ -178,6 +178,15 @@ def dep_progs(props=None, sfx=''):
     P.append(Prog('nullfw' + sfx, {'A': 'N'}, ['N'], NV(1, 2, 3), [
         Cls('Q(k)', ['k = 0 .. N-1'], 'A(k)', [Flow('READ X', ['k == 0 ? NULL : W Q(k-1)']), Flow('WRITE W', [], ['k < N-1 ? X Q(k+1)']), Flow('CTL C', [], ['C E(k)'])], **k),
         Cls('E(k)', ['k = 0 .. N-1'], 'A(k)', [Flow('CTL C', ['C Q(k)']), Flow('RW Y', ['A(k)'], ['A(k)'])], **k)], tags=['null', 'ctl']))
+    # a CTL flow with TWO guarded input dependencies of which the FIRST is the applicable one for some instances (head of a row of a
+    # row-major chain), next to another input that usually arrives first (seeded change C02-2: "already satisfied" decided by the last guard)
+    P.append(Prog('rowchain' + sfx, {'A': '1'}, ['N'], NV(1, 2, 3), [
+        Cls('Pr(m, j)', ['m = 0 .. N-1', 'j = 0 .. 1'], 'A(0)', [Flow('CTL D', [], ['D Tr(m, j)'])], **k),
+        Cls('Tr(m, j)', ['m = 0 .. N-1', 'j = 0 .. 1'], 'A(0)', [
+            Flow('RW X', ['A(0)'], ['A(0)']),
+            Flow('CTL D', ['D Pr(m, j)']),
+            Flow('CTL C', ['(m != 0) && (j == 0) ? C Tr(m-1, 1)', 'j != 0 ? C Tr(m, j-1)'],
+                          ['j == 0 ? C Tr(m, 1)', '(j == 1) && (m < N-1) ? C Tr(m+1, 0)'])], **k)], tags=['ctl', 'chain']))
     # gather of a range into every instance of a class (all-to-all CTL), then a second phase writes
     P.append(Prog('a2a' + sfx, {'A': 'N'}, ['N'], NV(1, 2, 3), [
         Cls('R1(k)', ['k = 0 .. N-1'], 'A(k)', [Flow('READ X', ['A((k+1) % N)']), Flow('CTL C', [], ['C R2(0 .. N-1)'])], **k),
@@ -246,7 +255,7 @@ def c02_family(tier):
             progs.append(startup_prog(fx, cx, fy, cy))
     progs, refused = valid(progs)
     if tier == 'quick':
-        want = ['chain', 'route', 'fanout', 'fanin', 'inin', 'wnew', 'tree', 'wave', 'nullfw', 'stride', 'twoout',
+        want = ['chain', 'route', 'fanout', 'fanin', 'inin', 'wnew', 'tree', 'wave', 'nullfw', 'stride', 'twoout', 'rowchain',
                 'inin_cnt', 'wave_cnt', 'su_btmo_tmtn', 'su_newf_ctlo']
         progs = [p for p in progs if p.name in want]
         missing = set(want) - set(p.name for p in progs)
